@@ -28,6 +28,8 @@ def run(C, R):
         E = C.engine(cfg)
         CG = C.cg(cfg)
         R.configs.append(cfg)
+        from common import wrapper_discipline
+        R.floor('C09.W wrapper-paths[%s]' % cfg, wrapper_discipline(C, R, cfg, ['channel::mpmc::ChannelState'], 'C09.W'), 2)
         npush = npop = nsucc = nsc = ndirect = nq = 0
         # the state layer's atomic transitions, and - so that a wrapper reaching around them is seen too -
         # every method of the channel type itself (state functions inlined)
